@@ -28,7 +28,7 @@ TokDims == [alg    |-> {"EdDSA", "HS256", "none"},
             kid    |-> {"k1", "k2", "kx", "", "#"},        \* "" absent, "#" not a string
             signer |-> {"k1", "k2", "kx"},
             tamper |-> {"none", "payload", "sig"},
-            iss    |-> {"vkuth", "other"},
+            iss    |-> {"vkuth", "other", ""},          \* "" absent
             user   |-> {"alice", "svc", ""},
             nbf    |-> {NoTime, -1000, 0, 1000, 4000, 5000, 6000},
             iat    |-> {NoTime, -1000, 0, 4000, 5000, 6000},
@@ -140,7 +140,7 @@ SessOf(f) ==
       [] f \in {"attr", "attr_big"} -> PolSess(EditorBitsets, {{}}, f)
       [] f = "all"        -> PolSess(UpTo(AllBits, 1) \cup UpTo(ViewBits, 2) \cup UpTo(EditBits, 2), {{<<"p_">>}}, f)
       [] f = "all_big"    -> PolSess(UpTo(AllBits, 2), MCProts, f)
-      [] f = "all3_big"   -> PolSess(UpTo(AllBits, 3), {{<<"p_">>}}, f)
+      [] f = "all3_big"   -> PolSess(UpTo(ViewBits \cup EditBits, 3), {{<<"p_">>}}, f)
 NamesOf(f) ==
     CASE f \in {"tok", "tok_big", "tok_full"} -> {Na, NHealth}
       [] f = "view" -> MCNamesSmall
@@ -152,10 +152,16 @@ EditsOf(f) ==
       [] f = "rename_big" -> NameEdits(MCNames)
       [] f = "attr" -> AttrEdits(Bases, 1)
       [] f = "attr_big" -> AttrEdits(Bases, 2)
-      [] f \in {"all", "all3_big"} -> NameEdits(MCNamesSmall) \cup AttrEdits(Bases, 1)
-      [] f = "all_big" -> NameEdits(MCNames) \cup AttrEdits(Bases, 2)
+      [] f \in {"all", "all_big"} -> NameEdits(MCNamesSmall) \cup AttrEdits(Bases, 1)
+      [] f = "all3_big" -> NameEdits(MCNamesSmall)
       [] OTHER -> {}
 MCSessions == UNION {SessOf(f) : f \in Fams}
-MCNamesByFam == [f \in Fams \cup {"tok_full"} |-> NamesOf(f)]
-MCEditsByFam == [f \in Fams \cup {"tok_full"} |-> EditsOf(f)]
+(* explicit functions (:> @@) so that TLC holds the sets instead of re-evaluating a lambda at
+   every application *)
+RECURSIVE MkFun(_, _)
+MkFun(S, names) == IF S = {} THEN <<>>
+                   ELSE LET f == CHOOSE x \in S : TRUE
+                        IN (f :> (IF names THEN NamesOf(f) ELSE EditsOf(f))) @@ MkFun(S \ {f}, names)
+MCNamesByFam == MkFun(Fams \cup {"tok_full"}, TRUE)
+MCEditsByFam == MkFun(Fams \cup {"tok_full"}, FALSE)
 ===============================================================================
